@@ -102,12 +102,32 @@ def word_pool(seed):
     return _words
 
 
-def gen_program(rng, thumb, n=24, seed=0):
+# instructions whose outcome depends on the configuration (Security / Virtualization Extensions, architecture
+# version): mode changes naming Monitor / Hyp / FIQ mode, SMC, SRS to another mode's stack, exception returns
+SENSITIVE_ARM = ([0xE321F000 | m for m in (0xD6, 0xDA, 0xD1, 0xD2, 0xD7, 0xDB, 0xDF, 0xD3)] +        # MSR CPSR_c, #mode
+                 [0xF1020000 | m for m in (0x16, 0x1A, 0x11, 0x12, 0x17, 0x1B, 0x1F, 0x13)] +        # CPS #mode
+                 [0xE1600070, 0xE1400070, 0xE160006E, 0xE10F0000, 0xE14F0000, 0xE169F000,           # SMC, HVC, ERET, MRS, MSR SPSR
+                  0xF96D0516, 0xF96D051A, 0xF96D0513, 0xF8BD0A00, 0xE1B0F00E, 0xE8BD8000,           # SRS, RFE, MOVS PC,LR, POP {pc}
+                  0xE12FFF1E, 0xE1A0F00E, 0xE5901001, 0xE7F000F0])                                   # BX LR, MOV PC,LR, unaligned LDR, UDF
+SENSITIVE_THUMB = ([(0xF3AF, 0x8100 | m) for m in (0x16, 0x1A, 0x11, 0x12, 0x17, 0x1B, 0x1F, 0x13)] +  # CPS #mode (T2)
+                   [(0x20D6,), (0x20DA,), (0x20D1,), (0x20D3,), (0xF380, 0x8100), (0xF390, 0x8100),       # MOVS r0,#mode ; MSR CPSR_c/SPSR_c, r0
+                    (0xF7F0, 0x8000), (0xF3DE, 0x8F00), (0xF3EF, 0x8000), (0xE80D, 0xC016), (0xE9BD, 0xC000),  # SMC, ERET, MRS, SRS, RFE
+                    (0x4770,), (0xBD00,), (0xDE00,), (0x4778,)])                                          # BX LR, POP {pc}, UDF, BX PC
+
+
+def gen_program(rng, thumb, n=24, seed=0, sensitive=0.0):
     from vf import trace_decode as td
     pool = word_pool(seed)
     out = bytearray()
     while len(out) < n * 4:
         r = rng.random()
+        if sensitive and (rng.random() < sensitive or (not out and rng.random() < 0.6)):
+            if not thumb:
+                out += rng.choice(SENSITIVE_ARM).to_bytes(4, 'little')
+            else:
+                for hw in rng.choice(SENSITIVE_THUMB):
+                    out += hw.to_bytes(2, 'little')
+            continue
         if not thumb:
             if r < 0.85:
                 m, v, ds = rng.choice(pool['arm'])
@@ -287,7 +307,7 @@ def run_shard(spec):
         for n in range(spec['n']):
             cfg = rng.choice(CFGS)
             thumb = rng.random() < 0.5
-            prog = gen_program(rng, thumb, seed=spec['seed'])
+            prog = gen_program(rng, thumb, seed=spec['seed'], sensitive=rng.choice([0.0, 0.0, 0.3]))
             regseed = rng.getrandbits(32)
             k0 = rng.randrange(0, 12)
             k = 12
@@ -371,7 +391,13 @@ def run_shard(spec):
             if rng.random() < 0.5:
                 cfgs.reverse()
             thumbs = [rng.random() < 0.5 for _ in cfgs]
-            progs = [gen_program(rng, t, seed=spec['seed']) for t in thumbs]
+            sens = rng.choice([0.0, 0.3, 0.6])
+            progs = [gen_program(rng, t, seed=spec['seed'], sensitive=sens) for t in thumbs]
+            if rng.random() < 0.5:                # the same program (same addresses, same words) on both instances
+                progs = [progs[0]] * 2
+                thumbs = [thumbs[0]] * 2
+            if sens:
+                bump('isolation_programs_with_configuration_sensitive_instructions')
             seeds = [rng.getrandbits(32) for _ in cfgs]
             solos = solos_for(cfgs, progs, thumbs, seeds)
             if solos is None:
@@ -402,10 +428,13 @@ def run_shard(spec):
             else:
                 cfgs = [rng.choice(CFGS) for _ in range(k)]
             thumbs = [rng.random() < 0.5 for _ in cfgs]
-            progs = [gen_program(rng, t, seed=spec['seed']) for t in thumbs]
-            if same and rng.random() < 0.5:
-                progs = [progs[0]] * k          # same program, same addresses, different register seeds
+            sens = rng.choice([0.0, 0.0, 0.3, 0.6])
+            progs = [gen_program(rng, t, seed=spec['seed'], sensitive=sens) for t in thumbs]
+            if rng.random() < 0.5:
+                progs = [progs[0]] * k          # same program, same addresses, different register seeds (and configurations)
                 thumbs = [thumbs[0]] * k
+            if sens:
+                bump('isolation_programs_with_configuration_sensitive_instructions')
             seeds = [rng.getrandbits(32) for _ in cfgs]
             solos = solos_for(cfgs, progs, thumbs, seeds)
             if solos is None:
